@@ -121,7 +121,9 @@ def run(ctx):
                     ctx.count("changed-after-first-export")
             if not rich:
                 w.provn(d)           # exact text correspondence (model printer vs real printer)
-                worlds.append(w)
+            else:
+                w.obs(d)             # at least the document's content is compared with the model's
+            worlds.append(w)
             if g.chance(0.5):
                 read_only_use(g, doc)
             try:
@@ -141,6 +143,8 @@ def run(ctx):
             if got == want:
                 continue
             sig = classify(doc)
+            if sig is not None and getattr(w, "corr_failed", False):
+                sig = None          # the model (= the pinned code) does not build this document: not the known finding
             ctx.count("fail:" + str(sig))
             if isinstance(got, tuple):
                 why = "the PROV-N reader crashed: %s" % (got[1],)
